@@ -10,7 +10,7 @@ HASHABLE_LEAVES = list(R.INTS) + ["bool", "string", "UUID", "Offset", "double", 
 UNKNOWN_NAMES = ["foo", "byte", "my_type"]
 
 
-def gen_type(r, depth=3, hashable=False, allow_unknown=False, allow_variant=True):
+def gen_type(r, depth=3, hashable=False, allow_unknown=False, allow_variant=True, allow_unordered=True):
     """Random type tree. `hashable`: the Python representation must be
     hashable (set elements, mapping keys)."""
     if allow_unknown and r.random() < 0.12:
@@ -25,16 +25,16 @@ def gen_type(r, depth=3, hashable=False, allow_unknown=False, allow_variant=True
     if allow_variant:
         kinds.append("variant")
     if not hashable:
-        kinds += ["sequence", "set", "mapping", "sequence", "mapping"]
+        kinds += ["sequence", "set", "mapping", "sequence", "mapping"] if allow_unordered else ["sequence", "sequence"]
     k = r.choice(kinds)
     if k == "sequence":
-        return (k, [gen_type(r, depth - 1, False, allow_unknown, allow_variant)])
+        return (k, [gen_type(r, depth - 1, False, allow_unknown, allow_variant, allow_unordered)])
     if k == "set":
-        return (k, [gen_type(r, depth - 1, True, allow_unknown, allow_variant)])
+        return (k, [gen_type(r, depth - 1, True, allow_unknown, allow_variant, allow_unordered)])
     if k == "mapping":
-        return (k, [gen_type(r, depth - 1, True, allow_unknown, allow_variant), gen_type(r, depth - 1, False, allow_unknown, allow_variant)])
+        return (k, [gen_type(r, depth - 1, True, allow_unknown, allow_variant, allow_unordered), gen_type(r, depth - 1, False, allow_unknown, allow_variant, allow_unordered)])
     n = r.randrange(1, 4)
-    return (k, [gen_type(r, depth - 1, hashable, allow_unknown, allow_variant) for _ in range(n)])
+    return (k, [gen_type(r, depth - 1, hashable, allow_unknown, allow_variant, allow_unordered) for _ in range(n)])
 
 
 def unhashable_position(t, need_hash=False):
